@@ -45,3 +45,208 @@ def r10_1(ctx):
         ctx.check(not un, "names resolved in %s" % q, detail="; ".join(n for n, _ in un) if un else "",
                   expected="every loaded global name is imported or defined", found="unbound: " + ", ".join("%s (line %d)" % (n, x.lineno) for n, x in un),
                   fi=f, node=(un[0][1] if un else None))
+
+
+@rule("R10.2", min_instances=5, desc="phase-2 order: guesses applied, guessed T/t0 read back, local-grid guesses derived from the guessed grid, guesses re-applied (time is right only now), then parameter values")
+def r10_2(ctx):
+    P = ctx.prog
+    f = P.own_method("SamplingMethod", "transcribe")
+    sc = ctx.scope(f)
+    n = ctx.norm(f)
+    p2 = [st for st in f.node.body if isinstance(st, ast.If) and ast.unparse(st.test).replace(" ", "") == "phase==2"]
+    if len(p2) != 1:
+        raise AnalysisError("SamplingMethod.transcribe: phase==2 branch not found")
+    b = p2[0]
+    events = []
+    for st in b.body:
+        for c in walk_no_nested(st):
+            if is_call_to(c, "set_initial", "self") and len(c.args) == 3:
+                events.append(("set_initial", ast.unparse(c.args[2]), c))
+            elif is_call_to(c, "set_parameter", "self"):
+                events.append(("set_parameter", "", c))
+            elif isinstance(c, ast.Call) and ast.unparse(c.func) == "opti.debug.value" and len(c.args) == 2 and ast.unparse(c.args[1]) == "opti.initial()":
+                events.append(("read", ast.unparse(c.args[0]), c))
+            elif isinstance(c, ast.Call) and ast.unparse(c.func) == "self.time_grid" and len(c.args) == 3:
+                events.append(("grid", ", ".join(ast.unparse(a) for a in c.args), c))
+    seq = [(k, v) for k, v, _ in events]
+    want = [("set_initial", "stage._initial"), ("read", "self.T"), ("read", "self.t0"), ("grid", "t0_init, T_init, self.N"),
+            ("set_initial", "initial"), ("set_initial", "stage._initial"), ("set_parameter", "")]
+    ctx.check(seq == want, "phase-2 sequence of SamplingMethod.transcribe", detail="order of guess application", expected=want, found=seq, fi=f, sample={"sequence": seq})
+    # T_init / t0_init names feed the grid
+    for nm, src in (("T_init", "self.T"), ("t0_init", "self.t0")):
+        d = [x for x in sc.defs.get(nm, []) if x.kind == "assign"]
+        ok = len(d) == 1 and ast.unparse(d[0].value) == "opti.debug.value(%s, opti.initial())" % src
+        ctx.check(ok, "%s is the guessed value of %s" % (nm, src), detail="guessed horizon", expected="opti.debug.value(%s, opti.initial())" % src, found=ast.unparse(d[0].value) if d else None, fi=f)
+    # local-grid guesses
+    stores = [st for st in walk_no_nested(b) if isinstance(st, ast.Assign) and isinstance(st.targets[0], ast.Subscript) and ast.unparse(st.targets[0].value) == "initial"]
+    t0s = [st for st in stores if "t0_local" in ast.unparse(st.targets[0].slice)]
+    Ts = [st for st in stores if "T_local" in ast.unparse(st.targets[0].slice)]
+    okt0 = len(t0s) == 2
+    for st in t0s:
+        idx = st.targets[0].slice
+        ok1 = isinstance(idx, ast.Subscript) and isinstance(st.value, ast.Subscript) and ast.unparse(st.value.value) == "control_grid_init" and \
+            Norm(None).poly(idx.slice) == Norm(None).poly(st.value.slice)
+        gs = [ast.unparse(t) for t, p in sc.guards(st) if p]
+        okt0 = okt0 and ok1 and "self.time_grid.localize_t0" in gs
+    ctx.check(okt0, "local start-time guesses: t0_local[k] starts at the guessed grid node k", detail="guess of a local start time taken from another node", expected="initial[self.t0_local[k]] = control_grid_init[k]",
+              found="; ".join(ast.unparse(s) for s in t0s), fi=f)
+    okT = len(Ts) == 1
+    if okT:
+        st = Ts[0]
+        idx = st.targets[0].slice
+        loops = sc.enclosing_loops(st)
+        kv = loops[-1][0].id if loops and isinstance(loops[-1][0], ast.Name) else None
+        okT = isinstance(idx, ast.Subscript) and kv is not None and Norm(None).poly(idx.slice) == Poly.atom(kv) and \
+            Norm(None).poly(st.value) == expected("control_grid_init[k+1]-control_grid_init[k]", k=kv) and "self.time_grid.localize_T" in [ast.unparse(t) for t, p in sc.guards(st) if p]
+        if okT:
+            it = loops[-1][1]
+            okT = is_call_to(it, "range") and len(it.args) == 2 and ast.unparse(it.args[1]) == "self.N" and "FreeGrid" in ast.unparse(it.args[0])
+    ctx.check(okT, "local interval-length guesses: T_local[k] starts at the guessed length of interval k", detail="guess of a local interval length taken from another interval",
+              expected="initial[self.T_local[k]] = control_grid_init[k+1]-control_grid_init[k], k from (0 for FreeGrid, else 1) to N-1", found="; ".join(ast.unparse(s) for s in Ts), fi=f,
+              sample={"T_local": "; ".join(ast.unparse(s) for s in Ts)})
+
+
+def node_loop_ok(sc, n, node):
+    """node sits in `for k in list(range(self.N))+[-1]` -> loop variable name, else None"""
+    from ..loops import loop_context
+    lc = loop_context(sc, n, node)
+    for li in reversed(lc):
+        if li.kind == "N+final" and isinstance(li.var, str):
+            return li.var
+    return None
+
+
+@rule("R10.3", min_instances=8, desc="column/node coherence: column k of an array (or of the sampled expression) is given to the quantity at node/interval k; DirectCollocation repeats column k over the points of interval k")
+def r10_3(ctx):
+    P = ctx.prog
+    for cname in ("SamplingMethod", "DirectCollocation"):
+        f = P.own_method(cname, "set_initial")
+        sc = ctx.scope(f)
+        n = ctx.norm(f)
+        sets = [c for c in walk_no_nested(f.node) if is_call_to(c, "set_initial", "opti") and len(c.args) >= 2 and isinstance(c.args[0], ast.Name) and ast.unparse(c.args[1]) == "value_k"]
+        ctx.check(len(sets) == 1, "%s.set_initial per-node application" % cname, detail="per-node guess application", expected="one opti.set_initial(target, value_k) in the node loop", found=str(len(sets)), fi=f)
+        for c in sets:
+            kv = node_loop_ok(sc, n, c)
+            ok = kv is not None
+            tname = c.args[0].id
+            td = [d for d in sc.defs.get(tname, []) if d.kind == "assign" and sc.order[d.stmt] < sc.order[c] and sc.enclosing_loops(d.stmt) and sc.enclosing_loops(d.stmt)[-1][2] is sc.enclosing_loops(c)[-1][2]]
+            ok = ok and len(td) == 1 and Norm(None).key(td[0].value) == "self.eval_at_control(stage,var,%s)" % kv
+            vd = [d for d in sc.defs.get("value_k", []) if d.kind == "assign" and sc.enclosing_loops(d.stmt) and sc.enclosing_loops(d.stmt)[-1][2] is sc.enclosing_loops(c)[-1][2]]
+            cols = [d for d in vd if isinstance(d.value, ast.Subscript)]
+            ok = ok and len(cols) == 1 and Norm(None).key(cols[0].value) == "value[:,%s]" % kv
+            if ok:
+                gs = [Norm(None).key(t) for t, p in sc.guards(cols[0].stmt) if p]
+                want = Norm(None).key(ast.parse("target.numel()*(self.N)==value.numel() or target.numel()*(self.N+1)==value.numel()", mode="eval").body)
+                ok = gs == [want]
+            ctx.check(ok, "%s.set_initial: target at node k receives column k" % cname, detail="array guess column given to another node/interval",
+                      expected="for k in range(N)+[-1]: target = eval_at_control(stage, var, k); value_k = value[:,k] when the array has N or N+1 columns", found=ast.unparse(c), fi=f, node=c)
+        # expression guesses are sampled on the same node sequence
+        hc = [c for c in walk_no_nested(f.node) if isinstance(c, ast.Call) and ast.unparse(c.func) in ("ca.hcat", "hcat") and c.args and isinstance(c.args[0], ast.ListComp)
+              and "eval_at_control(stage, expr" in ast.unparse(c.args[0].elt)]
+        okh = len(hc) >= 1
+        for c in hc:
+            lc0 = c.args[0]
+            from ..loops import classify_iter
+            kind, _ = classify_iter(lc0.generators[0].iter, n)
+            kv = lc0.generators[0].target.id
+            okh = okh and ast.unparse(lc0.elt) == "self.eval_at_control(stage, expr, %s)" % kv and kind in ("N+final", "N")
+        ctx.check(okh, "%s.set_initial samples an expression guess on the node sequence" % cname, detail="expression guess sampled on other nodes", expected="hcat([eval_at_control(stage, expr, k) for k in range(N)+[-1]])",
+                  found="; ".join(ast.unparse(c)[:80] for c in hc), fi=f)
+    # DirectCollocation: repetition of columns over integrator points and roots
+    f = P.own_method("DirectCollocation", "set_initial")
+    sc = ctx.scope(f)
+    want = {"value_integrator": "horzcat(ca.kron(value[:, :self.N], DM.ones(1, self.M)), value[:, -1])",
+            "value_integrator_root": "ca.kron(value[:, :self.N], DM.ones(1, self.M * self.degree))"}
+    for nm, text in want.items():
+        ds = [d for d in sc.defs.get(nm, []) if d.kind == "assign" and "kron" in ast.unparse(d.value)]
+        got = Norm(None).key(ds[0].value).replace("ca.", "") if ds else None
+        ctx.check(len(ds) == 1 and got == Norm(None).key(ast.parse(text, mode="eval").body).replace("ca.", ""), "DirectCollocation.set_initial %s" % nm,
+                  detail="columns tiled instead of repeated per interval (or final node missing)", expected=text, found=got, fi=f, sample={nm: got})
+    tg = {"target_integrator": ("eval_at_integrator(stage, var, k, i)", ["N", "M"], True), "target_integrator_root": ("eval_at_integrator_root(stage, var, k, i, j)", ["N", "M", "d"], False)}
+    n = ctx.norm(f)
+    from ..loops import classify_iter
+    for nm, (elt, kinds, final) in tg.items():
+        ds = [d for d in sc.defs.get(nm, []) if d.kind == "assign"]
+        ok = len(ds) == 1
+        if ok:
+            v = ds[0].value
+            inner = v.args[0] if isinstance(v, ast.Call) and v.args else None
+            lc0 = inner.left if isinstance(inner, ast.BinOp) else inner
+            ok = isinstance(lc0, ast.ListComp) and [classify_iter(g.iter, n)[0] for g in lc0.generators] == kinds and ast.unparse(lc0.elt) == "self." + elt
+            if final:
+                ok = ok and isinstance(inner, ast.BinOp) and ast.unparse(inner.right) == "[self.eval_at_control(stage, var, -1)]"
+        ctx.check(ok, "DirectCollocation.set_initial %s enumerates points in (k, i%s) order%s" % (nm, ", j" if "root" in nm else "", " + final node" if final else ""),
+                  detail="targets enumerated in another order than the values", expected="[%s for k in range(N) for i in range(M)%s]%s" % (elt, " for j in range(degree)" if "root" in nm else "", " + [final]" if final else ""),
+                  found=ast.unparse(ds[0].value)[:120] if ds else None, fi=f)
+
+
+FORBIDDEN = ("variable", "parameter", "subject_to", "add_objective", "minimize", "clear_objective")
+
+
+@rule("R10.4", min_instances=8, desc="effect purity: nothing reachable from set_initial creates variables/parameters or touches constraints or objective")
+def r10_4(ctx):
+    seen = set_initial_closure(ctx)
+    for q, f in sorted(seen.items()):
+        if f.cls is None or f.cls.name not in ctx.prog.subclasses("DirectMethod") + ["OptiWrapper"]:
+            continue
+        if f.name not in ("set_initial",) and not f.name.startswith(("eval", "_eval", "get_")):
+            continue
+        bad = [c for c in walk_no_nested(f.node) if isinstance(c, ast.Call) and isinstance(c.func, ast.Attribute) and c.func.attr in FORBIDDEN]
+        ctx.check(not bad, "%s has no effect on variables, constraints or objective" % q, detail="setting a guess changes the NLP", expected="no call of %s" % (FORBIDDEN,), found="; ".join(ast.unparse(b)[:50] for b in bad[:2]), fi=f,
+                  node=(bad[0] if bad else None))
+
+
+@rule("R10.5", min_instances=6, desc="Stage.set_initial records the guess on every path (last call wins), re-applies the table when transcribed; T/t0 redirected in every sibling")
+def r10_5(ctx):
+    P = ctx.prog
+    f = P.own_method("Stage", "set_initial")
+    from ..model import nested_functions
+    acts = list(nested_functions(f).values())
+    ctx.check(len(acts) == 1, "Stage.set_initial has one per-symbol action", detail="structure", expected="one closure", found=str(len(acts)), fi=f)
+    for g in acts:
+        def writes(nd):
+            return isinstance(nd, ast.Assign) and any(isinstance(t, ast.Subscript) and ast.unparse(t.value) == "self._initial" and ast.unparse(t.slice) == g.params[0] for t in nd.targets)
+        ok, bad = must_on_all_paths(g.node.body, writes)
+        ctx.check(ok, "Stage.set_initial stores the guess under its symbol on every non-raising path", detail="guess lost on some path", expected="self._initial[var] = value", found="missing", fi=g)
+        mv = [c for c in walk_no_nested(g.node) if is_call_to(c, "move_to_end", "self._initial")]
+        sc = ctx.scope(g)
+        ok = len(mv) == 1 and [ast.unparse(t) for t, p in sc.guards(mv[0]) if p] == ["priority"] and ast.unparse(mv[0].args[0]) == g.params[0]
+        ctx.check(ok, "Stage.set_initial orders prioritised guesses first", detail="ordering", expected="if priority: self._initial.move_to_end(var, last=False)", found="; ".join(ast.unparse(m) for m in mv), fi=g)
+    sc = ctx.scope(f)
+    wt = [c for c in walk_no_nested(f.node) if is_call_to(c, "set_initial", "self._method")]
+    ok = len(wt) == 1 and [ast.unparse(t) for t, p in sc.guards(wt[0]) if p] == ["self.master is not None and self.master.is_transcribed"]
+    fa = [c for c in walk_no_nested(f.node) if is_call_to(c, "for_all_primitives")]
+    ok = ok and len(fa) == 1 and sc.order[fa[0]] < sc.order[wt[0]]
+    ctx.check(ok, "Stage.set_initial re-applies the guesses to a live transcription after recording them", detail="guess given after transcription not applied (or applied before it is recorded)",
+              expected="record; then if transcribed: self._method.set_initial(...)", found="", fi=f)
+    from .c11 import check_T_aliasing
+    check_T_aliasing(ctx)
+
+
+@rule("R10.6", min_instances=4, desc="deferred guesses: key and value are queued together and every queued pair is applied when the placeholders are resolved")
+def r10_6(ctx):
+    P = ctx.prog
+    f = P.own_method("OptiWrapper", "set_initial")
+    sc = ctx.scope(f)
+    ka = [c for c in walk_no_nested(f.node) if is_call_to(c, "append", "self.initial_keys")]
+    va = [c for c in walk_no_nested(f.node) if is_call_to(c, "append", "self.initial_values")]
+    ok = len(ka) == 1 and len(va) == 1 and sc.block_of[sc.stmt_of(ka[0])] == sc.block_of[sc.stmt_of(va[0])] and ast.unparse(ka[0].args[0]) == f.params[1] and ast.unparse(va[0].args[0]) == f.params[2]
+    ctx.check(ok, "OptiWrapper.set_initial queues key and value in lock-step", detail="deferred guess lists out of step", expected="initial_keys.append(key); initial_values.append(value) in the same branch", found="", fi=f)
+    direct = [c for c in walk_no_nested(f.node) if isinstance(c, ast.Call) and ast.unparse(c.func) == "Opti.set_initial"]
+    ok = len(direct) == 1 and [ast.unparse(a) for a in direct[0].args[1:]] == [f.params[1], f.params[2]]
+    ctx.check(ok, "OptiWrapper.set_initial applies a resolvable guess at once, unchanged", detail="direct guess", expected="Opti.set_initial(self, key, value)", found="; ".join(ast.unparse(c) for c in direct), fi=f)
+    g = P.own_method("OptiWrapper", "transcribe_placeholders")
+    scg = ctx.scope(g)
+    loops = [l for l in walk_no_nested(g.node) if isinstance(l, ast.For) and "self.initial_values" in ast.unparse(l.iter)]
+    ok = len(loops) == 1
+    if ok:
+        l = loops[0]
+        it = l.iter
+        ok = is_call_to(it, "zip") and [Norm(None).key(a) for a in it.args] == ["self.initial_keys", Norm(None).key(ast.parse("res[n_constr+1:]", mode="eval").body), "self.initial_values"]
+        tv = [e.id for e in l.target.elts]
+        sets = [c for c in ast.walk(l) if isinstance(c, ast.Call) and ast.unparse(c.func) == "Opti.set_initial"]
+        ok = ok and len(sets) == 1 and [ast.unparse(a) for a in sets[0].args[1:]] == [tv[1], tv[2]] and not scg.guards(l)
+    ctx.check(ok, "every deferred guess is applied to its resolved key", detail="deferred guesses dropped or mis-paired", expected="for _, k, v in zip(initial_keys, res[n_constr+1:], initial_values): Opti.set_initial(self, k, v)", found="", fi=g)
+    init = P.own_method("OptiWrapper", "__init__")
+    asg = {ast.unparse(st.targets[0]): ast.unparse(st.value) for st in walk_no_nested(init.node) if isinstance(st, ast.Assign)}
+    ctx.check(asg.get("self.initial_keys") == "[]" and asg.get("self.initial_values") == "[]", "deferred guess queues start empty", detail="queues", expected="[] / []", found="", fi=init)
